@@ -758,6 +758,11 @@ func init() {
 			return "none"
 		}
 		b, err := gr.Byte()
+		if errors.Is(err, olric.ErrNilResponse) {
+			// the embedded client wraps "no previous value" in a response whose accessors fail
+			// with ErrNilResponse; the cluster client returns a nil response: both mean "none"
+			return "none"
+		}
 		if err != nil {
 			return errClass(err)
 		}
@@ -838,7 +843,7 @@ func init() {
 		key := string(unhx(a[0]))
 		ctx, cancel := opCtx()
 		defer cancel()
-		if a[1] == "forged" {
+		if a[1] == "forged" || atoi(strings.TrimPrefix(a[1], "tok")) >= len(lockTokens) {
 			return errClass(cl.rawc(m).Do(ctx, "DM.UNLOCK", name, key, hex.EncodeToString([]byte("forgedforgedforg"))).Err())
 		}
 		t := lockTokens[atoi(strings.TrimPrefix(a[1], "tok"))]
@@ -852,7 +857,7 @@ func init() {
 		ms := i64(a[2])
 		ctx, cancel := opCtx()
 		defer cancel()
-		if a[1] == "forged" {
+		if a[1] == "forged" || atoi(strings.TrimPrefix(a[1], "tok")) >= len(lockTokens) {
 			return errClass(cl.rawc(m).Do(ctx, "DM.PLOCKLEASE", name, key, hex.EncodeToString([]byte("forgedforgedforg")), ms).Err())
 		}
 		t := lockTokens[atoi(strings.TrimPrefix(a[1], "tok"))]
@@ -903,6 +908,124 @@ func init() {
 		sort.Strings(keys)
 		return "n=" + strconv.Itoa(len(keys)) + " " + strings.Join(keys, " ")
 	}))
+	// c.pipeline <cli|emb> <i> <dmap> put:<k>:<v> get:<k> getput:<k>:<v> del:<k> incr:<k>:<n> decr:<k>:<n> expire:<k>:<ms> ...
+	// every command is queued first, then one Exec, then every future is read: results joined by '|'
+	register("c.pipeline", clusterOp(func(m *member, path, name string, a []string) string {
+		ctx, cancel := opCtx()
+		defer cancel()
+		d, err := cl.dmap(m, map[string]string{"cli": "cli", "emb": "emb"}[path], name)
+		if err != nil {
+			return errClass(err)
+		}
+		p, err := d.Pipeline()
+		if err != nil {
+			return errClass(err)
+		}
+		type fut func() string
+		var futs []fut
+		for _, c := range a {
+			f := strings.Split(c, ":")
+			key := string(unhx(f[1]))
+			switch f[0] {
+			case "put":
+				fp, err := p.Put(ctx, key, unhx(f[2]))
+				if err != nil {
+					return errClass(err)
+				}
+				futs = append(futs, func() string { return errClass(fp.Result()) })
+			case "get":
+				fg := p.Get(ctx, key)
+				futs = append(futs, func() string {
+					gr, err := fg.Result()
+					if err != nil {
+						return errClass(err)
+					}
+					b, err := gr.Byte()
+					if err != nil {
+						return errClass(err)
+					}
+					return hx(b)
+				})
+			case "getput":
+				fg, err := p.GetPut(ctx, key, unhx(f[2]))
+				if err != nil {
+					return errClass(err)
+				}
+				futs = append(futs, func() string {
+					gr, err := fg.Result()
+					if err != nil {
+						return errClass(err)
+					}
+					if gr == nil {
+						return "none"
+					}
+					b, err := gr.Byte()
+					if errors.Is(err, olric.ErrNilResponse) {
+						return "none"
+					}
+					if err != nil {
+						return errClass(err)
+					}
+					return hx(b)
+				})
+			case "del":
+				fd := p.Delete(ctx, key)
+				futs = append(futs, func() string {
+					n, err := fd.Result()
+					if err != nil {
+						return errClass(err)
+					}
+					return strconv.Itoa(n)
+				})
+			case "incr", "decr":
+				delta := atoi(f[2])
+				if f[0] == "incr" {
+					fi, err := p.Incr(ctx, key, delta)
+					if err != nil {
+						return errClass(err)
+					}
+					futs = append(futs, func() string {
+						n, err := fi.Result()
+						if err != nil {
+							return errClass(err)
+						}
+						return strconv.Itoa(n)
+					})
+				} else {
+					fi, err := p.Decr(ctx, key, delta)
+					if err != nil {
+						return errClass(err)
+					}
+					futs = append(futs, func() string {
+						n, err := fi.Result()
+						if err != nil {
+							return errClass(err)
+						}
+						return strconv.Itoa(n)
+					})
+				}
+			case "expire":
+				fe, err := p.Expire(ctx, key, time.Duration(i64(f[2]))*time.Millisecond)
+				if err != nil {
+					return errClass(err)
+				}
+				futs = append(futs, func() string { return errClass(fe.Result()) })
+			default:
+				return "bad-pipeline-cmd"
+			}
+		}
+		if err := p.Exec(ctx); err != nil {
+			return "exec:" + errClass(err)
+		}
+		out := make([]string, len(futs))
+		for i, f := range futs {
+			out[i] = f()
+		}
+		return strings.Join(out, "|")
+	}))
+	register("c.commands", func(a []string) string {
+		return strings.Join(cl.members[atoi(a[0])].db.VerifInternals().Server.VerifCommands(), ",")
+	})
 	// rawcmd <i> <arg hex>... : any RESP command; reply class
 	register("c.rawcmd", func(a []string) string {
 		m := cl.members[atoi(a[0])]
@@ -912,11 +1035,26 @@ func init() {
 		}
 		ctx, cancel := context.WithTimeout(ctxBg, 5*time.Second)
 		defer cancel()
-		res, err := cl.rawc(m).Do(ctx, args...).Result()
+		// a fresh connection per command: a handler that wedges its connection must not block the next one
+		rc := redis.NewClient(&redis.Options{Addr: m.addr, MaxRetries: -1, DialTimeout: 2 * time.Second, ReadTimeout: 4 * time.Second})
+		defer rc.Close()
+		res, err := rc.Do(ctx, args...).Result()
 		if err != nil {
-			return "E:" + errClass(err)
+			if _, isReply := err.(redis.Error); isReply || errors.Is(err, redis.Nil) {
+				return "E" // the member answered with an error reply
+			}
+			c := errClass(err)
+			if c == "neterr" || true {
+				// no reply: did the member survive?  PING on another connection
+				if perr := cl.rawc(m).Ping(ctx).Err(); perr != nil {
+					return "noreply member-unresponsive:" + errClass(perr)
+				}
+				return "noreply"
+			}
+			return "E"
 		}
-		return fmt.Sprintf("R:%T", res)
+		_ = res
+		return "R"
 	})
 }
 
